@@ -13,7 +13,20 @@ leg 1  `cvh replay sst`: the fragments become a real SST in a real workbook; eve
 leg 2  `cvh drive sst`: random tables (thousands of strings); Trace_BiffSst.tla re-runs the reader model
        over the logged fragments.
 
-sensitivity: see the end of this docstring (filled from bin/mutant runs)
+sensitivity: bin/mutant C12 '<sed>@src/xls.rs' quick -- 9 of 10 killed:
+sensitivity: s/high_byte = r.data\[0\] \& 0x1 != 0;/let _ = r.data[0];/          flag byte not re-read        KILLED
+sensitivity: /high_byte = .../{n;s/r.data = &r.data\[1..\];/r.data = \&r.data[0..];/}  flag byte not skipped     KILLED
+sensitivity: s/r.skip(c_run \* 4)?;/r.skip(c_run * 2)?;/                          rgRun half skipped           KILLED
+sensitivity: s/r.skip(cb_ext_rst)?;//                                              ExtRst not skipped           KILLED
+sensitivity: s/if flags \& 0x8 != 0 {/if flags \& 0x10 != 0 {/                    fRichSt bit                  KILLED
+sensitivity: s/self.data = v.remove(0);/self.data = v.remove(v.len() - 1);/        continue_record order        KILLED
+sensitivity: s/if l == cch {/if l == len {/  (in the repaired read_dbcs)           fast path taken too often    KILLED
+sensitivity: s/high_byte = Some(r.data\[0\] \& 0x1 != 0);/high_byte = Some(false);/ sheet-name storage flag   KILLED
+sensitivity: s/_ => (Some(r\[2\] \& 0x1 != 0), 3),/_ => (Some(true), 3),/         LABEL/STRING storage flag    KILLED
+sensitivity: s/min(stream.len() \/ 2, len)/min((stream.len() + 1) \/ 2, len)/@src/cfb.rs  SURVIVED -- equivalent on the
+sensitivity:    checked language: differs only when a 16-bit character is split mid-character (illegal cut)
+sensitivity: reverting fix 312fb27 (per-fragment decoding) is refuted by leg 0 (MC_BiffSst_aswas.cfg: dev SurrogateSplit)
+sensitivity:    and was observed on the real code (118 of 4686 layouts read U+FFFD U+FFFD) before the fix
 """
 import json
 
